@@ -194,11 +194,11 @@ pub fn narrow_down_type(
         LuaType::Instance(base) => {
             return narrow_down_type(db, source, base.get_base().clone(), declared);
         }
-        LuaType::BooleanConst(_) => {
+        LuaType::BooleanConst(b) => {
             if real_source_ref.is_boolean() {
                 return Some(LuaType::Boolean);
             } else if real_source_ref.is_unknown() {
-                return Some(LuaType::BooleanConst(true));
+                return Some(LuaType::BooleanConst(*b));
             }
         }
         LuaType::Union(target_u) => {
